@@ -368,4 +368,62 @@ def isoBatch [OfNat α 0] (reg resp : List α) (rows : List (List α)) : Option 
 
 end iso
 
+/-! ## The families as `Inplace` models
+
+What the driver runs: every request of a family op names a calling form and is answered by
+`predictForm <family>Model form rows buf` — the `default_target` of the Rust impl, its
+`predict_inplace`, and the blanket impl of `impl_dataset.rs` that the form goes through. -/
+
+section models
+variable {α : Type} [Add α] [Sub α] [Mul α] [Div α] [LT α] [DecidableLT α] [LE α] [DecidableLE α]
+  [OfNat α 0]
+
+/-- OLS / elastic net (`default_target = Array1::zeros(n)`) -/
+def affineModel (w : List α) (b : α) : Inplace (List α) (List α) where
+  defaultTarget rows := List.replicate rows.length 0
+  predictInplace rows y := affineInplace rows w b y
+
+/-- PCA / PLS (`default_target = Array2::zeros((n, q))`) -/
+def linMapModel (mean std : List α) (cols : List (List α)) (bias : List α) :
+    Inplace (List α) (List (List α)) where
+  defaultTarget rows := List.replicate rows.length (List.replicate cols.length 0)
+  predictInplace rows y := linMapInplace mean std cols bias rows y
+
+/-- k-means (`default_target = Array1::zeros(n)`) -/
+def kmeansModel (cents : List (List α)) : Inplace (List α) (List Nat) where
+  defaultTarget rows := List.replicate rows.length 0
+  predictInplace rows y := kmeansInplace cents rows y
+
+/-- isotonic regression (`default_target = Array1::zeros(n)`) -/
+def isoModel (reg resp : List α) : Inplace (List α) (List α) where
+  defaultTarget rows := List.replicate rows.length 0
+  predictInplace rows y := isoInplace reg resp rows y
+
+end models
+
+/-- decision tree (`default_target = Array1::default(n)`) -/
+def treeModel {α L : Type} [LE α] [DecidableLE α] (t : Tree α L) (dflt : L) :
+    Inplace (List α) (List L) where
+  defaultTarget rows := List.replicate rows.length dflt
+  predictInplace rows y := treeInplace t rows y
+
+/-- `MultiTargetModel` (`default_target = Array2::default((n, m))`) -/
+def multiTargetModel {R L : Type} (members : List (List R → List L)) (dflt : L) :
+    Inplace R (List (List L)) where
+  defaultTarget rows := List.replicate rows.length (List.replicate members.length dflt)
+  predictInplace rows y := multiTargetInplace members rows y
+
+/-- `MultiClassModel` (`default_target = Array1::default(n)`) -/
+def multiClassModel {R L P : Type} [LT P] [DecidableLT P]
+    (members : List (L × (List R → List P))) (dflt : L) : Inplace R (List L) where
+  defaultTarget rows := List.replicate rows.length dflt
+  predictInplace rows y := multiClassInplace members rows y
+
+/-- `Platt` over an inner model (`default_target = Array1::default(n)`, i.e. `Pr(0.0)`) -/
+def plattModel {R α β : Type} [Add α] [Mul α]
+    [Add β] [Div β] [Neg β] [LE β] [DecidableLE β] [OfNat β 0] [OfNat β 1] [Transc β]
+    (cast : α → β) (inner : List R → List α) (a b : α) : Inplace R (List β) where
+  defaultTarget rows := List.replicate rows.length 0
+  predictInplace rows y := plattInplace cast inner a b rows y
+
 end LinfaSpec.Predict
